@@ -134,6 +134,14 @@ Fixpoint run_tbl (dirsize : Z) (s : tcache) (ops : list sx) : list sx :=
       end
   | SL [SS t; SZ mx] :: r =>
       if is_tag "reopen" t then sx_w "none" :: run_tbl dirsize (reopen frame s mx) r else [sx_err "tbl-op"]
+  | SL [SS t; SL n; SL (SS _ :: rows)] :: r =>
+      match sx_get_zs n, rows_of_sx rows with
+      | Some n', Some f =>
+          if is_tag "modify" t
+          then sx_w "none" :: run_tbl dirsize (if table_get_returns_copy then s else alias_modify s n' f) r
+          else [sx_err "tbl-op"]
+      | _, _ => [sx_err "tbl-modify"]
+      end
   | SL [SS t; SL n] :: r =>
       match sx_get_zs n with
       | Some n' => if is_tag "unload" t then sx_w "none" :: run_tbl dirsize (unload_file frame s n') r else [sx_err "tbl-op"]
